@@ -81,6 +81,11 @@ type homeSite struct {
 // enclose pos in fn; if fn's own syntax has no case around pos and fn has a
 // home, the case around its one call site, and so on.
 func caseHome(p *Program, fn *ssa.Function, pos token.Pos) (*ssa.Function, string) {
+	// a function literal is text of the function that contains it: the case it
+	// is written in is its home
+	for fn.Parent() != nil {
+		fn = fn.Parent()
+	}
 	for d := 0; d < 4; d++ {
 		if l := outerCase(p, fn, pos); l != "" {
 			return fn, l
